@@ -84,7 +84,9 @@ func scopeBalance(c *core.Ctx, rel string, fd *ast.FuncDecl, inf *types.Info, is
 			return base + depth
 		},
 	}
-	flow.Run(auto)
+	// the function's error variable is followed along each path: `if err != nil` written twice, or an error threaded
+	// through an if / else, must not make a failed path look like it continues
+	flow.Run(core.TrackNil(inf, core.MainErrorVar(inf, fd), auto))
 	_ = deferredExit
 	// one obligation per enter call, exit call and return
 	reported := map[ast.Node]bool{}
